@@ -6,7 +6,7 @@ Design level : specs/CDecl.tla.  The ideal is the C grammar of type names in two
                (ReadsBack).  The implementation models are ParseC (parse_c_type.c transcribed,
                opcode array and all) and PyPrim (cparser.py's specifier normalisation); TLC
                checks that they accept and denote what the ideal says on every rendering
-               except in four syntactic classes (ParseCAgrees, PyPrimAgrees), which is where
+               except in a few syntactic classes (ParseCAgrees, PyPrimAgrees), which is where
                the model predicts that the real parsers part.  Broken variants of the
                models are rejected by TLC (non-vacuity).
 Binding      : spec -> code: every (term, rendering) pair and every near-miss TLC enumerates is
@@ -226,7 +226,8 @@ def tokenize(s):
 
 
 # (model variant, invariant TLC must find violated, Depth, MaxVar)
-SANITY = (("suffix-order", "ReadsBack", 2, 0), ("no-group", "ParseCAgrees", 1, 0), ("faithful", "ParseCStrict", 1, 1))
+SANITY = (("suffix-order", "ReadsBack", 2, 0), ("no-group", "ParseCAgrees", 1, 0), ("faithful", "ParseCStrict", 1, 1),
+          ("old-qual-loop", "ParseCAgrees", 0, 1))
 
 
 def model_notes(ctx, cases, results):
